@@ -17,6 +17,8 @@ DECIDED = ["R15a and/or truth tables (TABLE, exhaustive 9+9 rows)", "R15b distan
            "R15c modifier and logic dispatch (cut-set per arm)", "R15d type-strict ordering comparisons (DOM)",
            "R15e contains/starts_with/ends_with accepted type pairs (TABLE)",
            "R15f the ids condition compares signed ids",
+           "R15h the keys condition is `all listed keys are among the element's keys` (idiom table)",
+           "R15g evaluate_conditions folds every condition with the documented step (abstract interpretation, 672 rows)",
            "R14a-c traversal sibling rules (shared with C14)",
            "R16e streaming handlers pass the Continue/Stop kind through (shared with C16)"]
 UNDECIDED = ["extent of a traversal on a concrete graph (needs execution)",
@@ -117,10 +119,190 @@ def ids_condition_rule(ctx, rule="R15f"):
         ctx.ob(rule, "evaluate_condition:ids-signed", False, "ids membership closure not found (idiom not recognised)", b.where)
 
 
+def _ref_step(result, mod, logic, control, dist0):
+    """One condition of the documented evaluation: (variant, flag) x modifier x logic x (variant, flag) -> (variant, flag)."""
+    rv, rb = result
+    cv, cb = control
+    if mod == "Beyond":
+        cv, cb = ("Continue", rb) if (cb or dist0) else ("Stop", rb)
+    elif mod == "NotBeyond":
+        cv, cb = ("Stop", rb) if cb else ("Continue", rb)
+    elif mod == "Not":
+        cb = not cb
+    names = {"C": "Continue", "F": "Finish", "S": "Stop"}
+    if logic == "And":
+        return (names[want_and(V[rv], V[cv])], rb and cb)
+    return (names[want_or(V[rv], V[cv])], rb or cb)
+
+
+def conditions_fold_rule(ctx, rule="R15g"):
+    """evaluate_conditions folds EVERY condition into the result with the documented step
+    (modifier applied to the condition's outcome, then `and` / `or` with the running result).  Decided by abstract
+    interpretation of the whole function over one- and two-condition sequences whose modifier, logic and outcome range
+    over all values (48 conditions x distance 0 / not 0, then all 6 running results x 48 x 2): skipping a condition
+    ("short-circuit"), evaluating it with the wrong modifier or combining it with the wrong operator changes a row."""
+    from lib import absint
+    fa = ctx.facts
+    b = ctx.anchor(rule, "agdb::db::DbImpl::evaluate_conditions")
+    if not b:
+        return
+    ctrls = [(v, f) for v in ("Continue", "Finish", "Stop") for f in (True, False)]
+    mods = ("None", "Not", "Beyond", "NotBeyond")
+    logics = ("And", "Or")
+
+    def run_seq(seq, dist):
+        queue = list(range(len(seq)))
+
+        def hook(interp, env, t, depth=0):
+            n = cfg.callee(t) or ""
+            d = cfg.callee_decl(t) or n
+            if d.endswith("IntoIterator::into_iter") or last(d) in ("iter",):
+                return ("sym", "iter")
+            if d.endswith("Iterator::next"):
+                if not queue:
+                    return ("enum", "None", [])
+                k = queue.pop(0)
+                m, lg, c = seq[k]
+                return ("enum", "Some", [("ref", ("struct", {"logic": ("enum", lg, []), "modifier": ("enum", m, []),
+                                                             "data": ("sym", "data%d" % k)}))])
+            if common.norm(n).endswith("DbImpl::evaluate_condition"):
+                for a in t["a"]:
+                    try:
+                        v = interp.deref(interp.operand(env, a))
+                    except absint.Unknown:
+                        continue
+                    if v[0] == "sym" and v[1].startswith("data"):
+                        cv, cb = seq[int(v[1][4:])][2]
+                        return ("enum", "Ok", [("enum", cv, [("bool", cb)])])
+                raise absint.Unknown("evaluate_condition is not called with the condition's data")
+            if fa.body(n) is not None:
+                return absint.call_workspace(fa, interp, env, t, hook, depth)
+            return None
+        env = {}
+        for k in range(1, b.d["argc"] + 1):
+            ty = b.local_ty(k)
+            env[k] = ("int", dist) if ty == "u64" else ("sym", "arg%d" % k)
+        r = absint.Interp(b, {}, hook, max_steps=3000, fa=fa).run(env)
+        if r[0] == "enum" and r[1] == "Ok" and r[2] and r[2][0][0] == "enum" and r[2][0][2] and r[2][0][2][0][0] == "bool":
+            return (r[2][0][1], r[2][0][2][0][1])
+        raise absint.Unknown("result %s" % absint.show(r))
+
+    bad = None
+    runs = 0
+    try:
+        for dist in (0, 1):
+            for m in mods:
+                for lg in logics:
+                    for c in ctrls:
+                        want = _ref_step(("Continue", True), m, lg, c, dist == 0)
+                        got = run_seq([(m, lg, c)], dist)
+                        runs += 1
+                        if got != want and bad is None:
+                            bad = "a single condition (modifier %s, logic %s, outcome %s(%s), distance %s) gives %s(%s), documented %s(%s)" % (
+                                m, lg, c[0], str(c[1]).lower(), "0" if dist == 0 else ">0", got[0], str(got[1]).lower(), want[0], str(want[1]).lower())
+        if bad is None:
+            for dist in (0, 1):
+                for r0 in ctrls:
+                    for m in mods:
+                        for lg in logics:
+                            for c in ctrls:
+                                want = _ref_step(r0, m, lg, c, dist == 0)
+                                got = run_seq([("None", "And", r0), (m, lg, c)], dist)
+                                runs += 1
+                                if got != want and bad is None:
+                                    bad = ("with the running result %s(%s), the condition (modifier %s, logic %s, outcome %s(%s), distance %s) "
+                                           "gives %s(%s), documented %s(%s)" % (
+                                               r0[0], str(r0[1]).lower(), m, lg, c[0], str(c[1]).lower(), "0" if dist == 0 else ">0",
+                                               got[0], str(got[1]).lower(), want[0], str(want[1]).lower()))
+    except absint.Unknown as e:
+        bad = "idiom not recognised by the abstract interpreter (%s)" % e
+    ctx.ob(rule, "evaluate_conditions:fold", bad is None,
+           "%d abstract runs: every condition is folded into the result with the documented modifier / and / or step" % runs
+           if bad is None else "DbImpl::evaluate_conditions: %s" % bad, b.where)
+    if bad is None:
+        ctx.floor(rule, "abstract runs of evaluate_conditions", runs, 672)
+    return "unknown" if (bad or "").startswith("idiom not recognised") else ("bad" if bad else "ok")
+
+
+def keys_condition_rule(ctx, rule="R15h"):
+    """`keys(k1..kn)` holds iff EVERY listed key is among the element's keys: in the `Keys` arm of evaluate_condition the
+    flag is `values.all(|k| element_keys.contains(k))` (or the De Morgan form with `any`), where the iterated values are
+    the condition's payload and the searched collection is the result of DbKeyValues::keys(index).  A count of matches
+    compared with a length is not the same predicate (keys may repeat on either side)."""
+    fa = ctx.facts
+    b = ctx.anchor(rule, "agdb::db::DbImpl::evaluate_condition")
+    if not b:
+        return
+    sw = None
+    for i, blk in enumerate(b.blocks):
+        t = blk["term"]
+        if t["k"] != "switch":
+            continue
+        pl = cfg.op_place(t["d"])
+        ds = cfg.defs(b).get(pl[0], []) if pl else []
+        if ds and ds[0][0] == "assign" and ds[0][2]["k"] == "discr" and last(ds[0][2].get("enum")) == "QueryConditionData":
+            names = dict((v, n) for v, n in ds[0][2]["variants"])
+            if "Keys" in names.values():
+                sw = (i, t, names)
+                break
+    why = "match on QueryConditionData not found"
+    ok = False
+    if sw:
+        i0, t0, names = sw
+        start = [tb for v, tb in t0["ts"] if names.get(v) == "Keys"]
+        others = [tb for v, tb in t0["ts"] if names.get(v) != "Keys"] + ([t0["else"]] if t0.get("else") is not None else [])
+        reg = cfg.reachable(b, start, avoid=[i0])[0] - cfg.reachable(b, [o for o in others if o not in start], avoid=[i0])[0] \
+            if start else set()
+        why = "the `Keys` arm has no `all` / `any` over the condition's keys"
+        for i, t in cfg.calls(b):
+            nm = last(cfg.callee_decl(t) or cfg.callee(t) or "")
+            if i not in reg or nm not in ("all", "any") or len(t["a"]) < 2:
+                continue
+            want = 0 if nm == "all" else 1
+            # the iterated values are the condition's payload
+            sl, calls_in, _ = cfg.backward_slice(b, [cfg.op_place(t["a"][0])[0]])
+            payload = any("as Keys" in [e for e in (cfg.op_place(o) or [])[1:] if isinstance(e, str)]
+                          for l in sl for d in cfg.defs(b).get(l, []) if d[0] in ("assign", "partial")
+                          for o in cfg.rvalue_operands(d[2])) or \
+                any(d[0] in ("assign", "partial") and d[2]["k"] in ("ref", "discr") and "as Keys" in d[2].get("p", [])
+                    for l in sl for d in cfg.defs(b).get(l, []))
+            # the closure tests membership in the element's keys
+            cpl = cfg.op_place(t["a"][1])
+            cdef = [d for d in cfg.defs(b).get(cfg.origin(b, cpl)[0], []) if d[0] == "assign" and d[2]["k"] == "agg" and
+                    d[2].get("what") == "closure"] if cpl else []
+            member = from_keys = False
+            if cdef:
+                cb = fa.body(cdef[0][2]["def"])
+                csl, ccalls, _ = cfg.backward_slice(b, [cfg.origin(b, cpl)[0]])
+                from_keys = any(common.norm(cfg.callee(tt) or "").endswith("DbKeyValues::keys") for j, tt in ccalls)
+                if cb:
+                    for j, tt in cfg.calls(cb):
+                        if last(cfg.callee_decl(tt) or cfg.callee(tt) or "") == "contains":
+                            der = cfg.derived_locals(cb, [tt["d"][0]])
+                            if der.get(0) == want:
+                                member = True
+            # the flag of the arm's SearchControl is that result
+            der = cfg.derived_locals(b, [t["d"][0]])
+            flag = any(bi in reg and st["r"]["k"] == "agg" and st["r"].get("adt") == SC and
+                       cfg.op_place(st["r"]["ops"][0]) and der.get(cfg.op_place(st["r"]["ops"][0])[0]) == want
+                       for bi, st in cfg.assigns(b) if st["r"]["k"] == "agg" and st["r"].get("ops"))
+            if payload and member and from_keys and flag:
+                ok = True
+            else:
+                why = ("`%s` at %s: iterates the condition's keys: %s; closure is `%scontains` on the element's keys: %s / %s; "
+                       "its result is the arm's flag: %s" % (nm, b.loc(i), payload, "!" if want else "", member, from_keys, flag))
+    ctx.ob(rule, "evaluate_condition:keys-all-contained", ok,
+           "Keys => every key of the condition is contained in DbKeyValues::keys(index)" if ok else
+           "DbImpl::evaluate_condition: the `keys` condition is no longer `all listed keys are among the element's keys` (%s); "
+           "accepted idioms: values.iter().all(|k| keys.contains(k)) and its `any` dual" % why, b.where)
+
+
 def run(ctx):
     fa = ctx.facts
     docs = docs_tables(getattr(ctx, "repo", "/repo"))
     ids_condition_rule(ctx)
+    fold = conditions_fold_rule(ctx)
+    keys_condition_rule(ctx)
     # ---------------- R15a: the documented truth tables of `and` / `or`, evaluated abstractly (lib/absint.py) for every
     # pair of variants and every pair of flags; the spelling of the match does not matter
     from lib import absint as _ai
@@ -197,7 +379,11 @@ def run(ctx):
                        vname, got, op, want, (" (" + detail + ")") if detail else ""), b.where)
 
     # ---------------- R15c
-    b = ctx.anchor("R15c", "agdb::db::DbImpl::evaluate_conditions")
+    # (R15g decides the same arms exhaustively; the per-arm reading below only adds a more local diagnosis when the
+    # abstract interpreter does not recognise the function's idiom)
+    b = ctx.anchor("R15c", "agdb::db::DbImpl::evaluate_conditions") if fold == "unknown" else None
+    if fold != "unknown":
+        ctx.note("R15c: modifier arms and logic dispatch are decided by R15g (%s)" % fold)
     if b:
         sw = None
         for i, blk in enumerate(b.blocks):
